@@ -24,11 +24,14 @@ def run_ops(cls: str, params: dict, ops: list[tuple], inst: str = "a", callbacks
 class AdwinBudget:
     """A-priori bound on the rounding error of ADWIN's running `total` (forward error analysis of what the algorithm does, whatever the association inside it):
     every value is added once (error <= half an ulp of the sum at that moment) and leaves inside a bucket whose own total was formed by at most log2(size)+1
-    additions; the subtraction rounds once more.  The error made while LARGE values were in the window stays when they have left - and nothing more than that:
+    additions; the subtraction rounds once more.  For histories WITHOUT deletions this is a theorem about the model (`Props/C05r.lean`: `total_within_harness_tolerance`,
+    `totalErr_le_two_budget`: the model's error is within 2 x this budget for t*u <= 1/2; `totalErr_tight_witness`: 1 x the first-order budget is NOT a bound); with
+    deletions `C05r.total_err` bounds the model's error by its own recursion `traceErr`, whose comparison with this budget is not proved.  The error made while LARGE values were in the window stays when they have left - and nothing more than that:
     after a drop of the level by many orders of magnitude the total is known to about ulp(old level) * (number of operations), not to 1e-9 of the old level."""
     U = 1.1102230246251565e-16
 
-    def __init__(self):
+    def __init__(self, m: int = 5):
+        self.m = max(1, int(m))     # buckets per row: up to m buckets of one size can be deleted in one step (proof agent U10: `log2(dropped+1)+1` subtractions was not a bound for m >= 2)
         self.budget = 0.0
         self.budget_var = 0.0       # the same for the variance: sums of squares of the size sum(x^2) over the window are added and removed
         self.hist: list = []
@@ -48,8 +51,9 @@ class AdwinBudget:
         if dropped:
             start = len(self.hist) - w_before
             gone = math.fsum(self.hist[start: start + dropped])
-            self.budget += self.U * (math.log2(dropped + 1) + 2) * gone + self.U * self.abs_sum * (math.log2(dropped + 1) + 1)
-            self.budget_var += 16 * self.U * self.sq_sum * (math.log2(dropped + 1) + 2)
+            n_sub = min(dropped, (self.m + 1) * (math.log2(dropped + 1) + 1))       # number of buckets that can hold `dropped` values: at most m + 1 per size
+            self.budget += self.U * (math.log2(dropped + 1) + 2) * gone + self.U * self.abs_sum * n_sub
+            self.budget_var += 16 * self.U * self.sq_sum * (n_sub + 1)
             self.abs_sum = math.fsum(self.hist[len(self.hist) - int(width_after):]) if width_after > 0 else 0.0
             self.sq_sum = math.fsum(v * v for v in self.hist[len(self.hist) - int(width_after):]) if width_after > 0 else 0.0
         self.w = int(width_after)
@@ -128,7 +132,7 @@ def compare_batch(out: Outcome, runners: list[dets.Runner], rtol: float = 1e-9, 
         # ADWIN's variance (token 5) is a sum of SQUARED deviations kept by updates and downdates: after a cut what is left of it is the rounding residue of
         # numbers of size max|x|^2 (and of max|x| for the total, token 4), and any re-association of the same formula changes that residue
         floors = None
-        ab = AdwinBudget() if r.cls == "ADWIN" else None
+        ab = AdwinBudget(dets.full_params("ADWIN", r.params)["m"]) if r.cls == "ADWIN" else None
         if r.cls == "BOCD":
             # predicted mean (token 3) at the scale of the data, predicted variance (token 4) at the scale of the configured variances: a problem stated in
             # nanoseconds-as-seconds has both far below 1
@@ -139,7 +143,7 @@ def compare_batch(out: Outcome, runners: list[dets.Runner], rtol: float = 1e-9, 
             if ab is not None and k >= 1:
                 ln = r.lines[k].split(" ")
                 if ln[0] == "r":
-                    ab = AdwinBudget()
+                    ab = AdwinBudget(ab.m)
                 elif ln[0] in ("u", "uq") and impl is not None and len(impl) > 5 and impl[3].lstrip("-").isdigit():
                     # total (token 4) and variance (token 5) are compared relative to what the window holds NOW, never finer than the rounding error the
                     # algorithm may have accumulated (see AdwinBudget); the variance as the square of that scale
